@@ -81,3 +81,14 @@ pub fn install_logger(level: log::LevelFilter) {
     let _ = log::set_logger(&LOGGER);
     log::set_max_level(level);
 }
+
+/// Last line of defence against a subject that hangs where the harness cannot interrupt it (a blocking client waiting
+/// for an answer nobody gives): after `secs` the process reports a machinery failure instead of hanging forever.
+pub fn install_watchdog(secs: u64, what: String) {
+    std::thread::spawn(move || {
+        std::thread::sleep(std::time::Duration::from_secs(secs));
+        eprintln!("MACHINERY-ERROR watchdog: {} still running after {} s", what, secs);
+        println!("MACHINERY-ERROR watchdog: {} still running after {} s", what, secs);
+        std::process::exit(2);
+    });
+}
